@@ -91,6 +91,7 @@ pub open spec fn ids_below(s: State) -> bool { forall|k: TxnID| #[trigger] txns_
     requires old(st).next_tx_id.0 < i64::MAX, ids_below(*old(st)),
     ensures
         *final(rt) == *old(rt), admin_eq(*old(st), *final(st)),
+        /*C11*/ /*C12*/ res.is_ok() ==> old(st).signers@.contains(proposer),
         res.is_ok() ==> ({
             let (id, txn) = res->Ok_0;
             // "only signers can propose"
@@ -116,6 +117,7 @@ pub open spec fn ids_below(s: State) -> bool { forall|k: TxnID| #[trigger] txns_
 //@ fn actors/multisig/src/lib.rs Actor::approve closure=0 as=approve_tx0 params="st: &mut State, rt: &mut Rt, approver: Address, params: TxnIDParams" retty="Result<(State, Transaction), ActorError>" ret=res
     ensures
         *final(rt) == *old(rt), sv(*final(st)) == sv(*old(st)),
+        /*C11*/ /*C12*/ res.is_ok() ==> old(st).signers@.contains(approver),
         res.is_ok() ==> old(st).signers@.contains(approver) && sv(res->Ok_0.0) == sv(*old(st))
             && txns_of(*old(st)).dom().contains(params.id) && tv(res->Ok_0.1) == tv(txns_of(*old(st))[params.id]),
 //@ end
@@ -394,6 +396,8 @@ pub proof fn lemma_remove_all(s: Seq<Address>, a: Address)
 //@ fn actors/multisig/src/lib.rs Actor::cancel closure=0 as=cancel_tx0 params="st: &mut State, rt: &mut Rt, caller_addr: Address, params: TxnIDParams" retty="Result<(), ActorError>" sub0="params . proposal_hash != calculated_hash=>vx_hash_ne(&params.proposal_hash, &calculated_hash)"
     ensures
         *final(rt) == *old(rt), admin_eq(*old(st), *final(st)), final(st).next_tx_id == old(st).next_tx_id,
+        /*C11*/ /*C12*/ r.is_ok() ==> old(st).signers@.contains(caller_addr) && txns_of(*old(st)).dom().contains(params.id)
+            && first_of(txns_of(*old(st))[params.id].approved@) == Some(caller_addr),
         r.is_ok() ==> ({
             let m0 = txns_of(*old(st));
             // "only signers", an existing transaction, and "only by its earliest remaining approver (initially the proposer)"
@@ -535,7 +539,7 @@ pub open spec fn self_call(rt: &Rt) -> bool { rt.msg.caller == rt.msg.receiver }
 //@ fn actors/multisig/src/lib.rs Actor::add_signer free tx0="State;add_signer_tx0;&mut __vx_st, rt, resolved_new_signer, &params"
     requires ms_entry(old(rt)),
     ensures
-        /*C11*/ r.is_ok() ==> self_call(old(rt)),
+        /*C11*/ /*C12*/ r.is_ok() ==> self_call(old(rt)),
         r.is_ok() ==> final(rt).tx_log@.len() == 1 && ms_wf(rt_state::<State>(final(rt).tx_log@[0]))
             && txns_of(rt_state::<State>(final(rt).tx_log@[0])) == txns_of(rt_state::<State>(old(rt).state_id@)),
         !self_call(old(rt)) ==> r.is_err() && final(rt).sends@.len() == 0 && final(rt).tx_log@.len() == 0,
@@ -543,21 +547,21 @@ pub open spec fn self_call(rt: &Rt) -> bool { rt.msg.caller == rt.msg.receiver }
 //@ fn actors/multisig/src/lib.rs Actor::remove_signer free tx0="State;remove_signer_tx0;&mut __vx_st, rt, resolved_old_signer, &params"
     requires ms_entry(old(rt)),
     ensures
-        /*C11*/ r.is_ok() ==> self_call(old(rt)),
+        /*C11*/ /*C12*/ r.is_ok() ==> self_call(old(rt)),
         r.is_ok() ==> final(rt).tx_log@.len() == 1 && ms_wf(rt_state::<State>(final(rt).tx_log@[0])),
         !self_call(old(rt)) ==> r.is_err() && final(rt).sends@.len() == 0 && final(rt).tx_log@.len() == 0,
 //@ end
 //@ fn actors/multisig/src/lib.rs Actor::swap_signer free tx0="State;swap_signer_tx0;&mut __vx_st, rt, from_resolved, to_resolved"
     requires ms_entry(old(rt)),
     ensures
-        /*C11*/ r.is_ok() ==> self_call(old(rt)),
+        /*C11*/ /*C12*/ r.is_ok() ==> self_call(old(rt)),
         r.is_ok() ==> final(rt).tx_log@.len() == 1 && ms_wf(rt_state::<State>(final(rt).tx_log@[0])),
         !self_call(old(rt)) ==> r.is_err() && final(rt).sends@.len() == 0 && final(rt).tx_log@.len() == 0,
 //@ end
 //@ fn actors/multisig/src/lib.rs Actor::change_num_approvals_threshold free tx0="State;change_threshold_tx0;&mut __vx_st, rt, &params"
     requires ms_entry(old(rt)),
     ensures
-        /*C11*/ r.is_ok() ==> self_call(old(rt)),
+        /*C11*/ /*C12*/ r.is_ok() ==> self_call(old(rt)),
         r.is_ok() ==> final(rt).tx_log@.len() == 1 && ms_wf(rt_state::<State>(final(rt).tx_log@[0]))
             && rt_state::<State>(final(rt).tx_log@[0]).num_approvals_threshold == params.new_threshold
             && rt_state::<State>(final(rt).tx_log@[0]).signers == rt_state::<State>(old(rt).state_id@).signers,
@@ -567,7 +571,7 @@ pub open spec fn self_call(rt: &Rt) -> bool { rt.msg.caller == rt.msg.receiver }
 //@ fn actors/multisig/src/lib.rs Actor::lock_balance free tx0="State;lock_balance_tx0;&mut __vx_st, rt, params"
     requires ms_entry(old(rt)),
     ensures
-        /*C11*/ r.is_ok() ==> self_call(old(rt)),
+        /*C11*/ /*C12*/ r.is_ok() ==> self_call(old(rt)),
         r.is_ok() ==> params.unlock_duration > 0 && params.amount@ >= 0 && rt_state::<State>(old(rt).state_id@).unlock_duration == 0
             && final(rt).tx_log@.len() == 1 && ({
                 let s1 = rt_state::<State>(final(rt).tx_log@[0]);
